@@ -257,6 +257,14 @@ func (f *Fam) genBegin(r *rand.Rand, s *Snapshot) string {
 	return fmt.Sprintf("begin t=%d p=%s v=%s e=%s", now, prop, v, e)
 }
 
+// capInt64: a required fee as a machine integer for the generator's arithmetic (a fee beyond 2^62 is out of anybody's reach)
+func capInt64(x sdk.Int) int64 {
+	if x.IsInt64() && x.Int64() < 1<<62 {
+		return x.Int64()
+	}
+	return 1 << 62
+}
+
 func maxi(a, b int64) int64 {
 	if a > b {
 		return a
@@ -299,7 +307,7 @@ func (f *Fam) genTx1(r *rand.Rand, s *Snapshot) string {
 	}
 	if f.gen.unjailNow >= 0 && r.Intn(2) == 0 { // the unjail request this block's time was chosen for
 		ki := f.gen.unjailNow
-		req := f.requiredFee("unjail").Int64()
+		req := capInt64(f.requiredFee(s, "unjail"))
 		return fmt.Sprintf("tx deliver k=unjail signer=%d pk=1 fee=%d memo=0 ent=%d mut=none addr=%s", ki, req, r.Int63n(1<<40), hx(Keys[ki].Addr))
 	}
 	ki := r.Intn(NKeys)
@@ -416,7 +424,7 @@ func (f *Fam) genTx1(r *rand.Rand, s *Snapshot) string {
 	case x < 85:
 		kind = "changeparam"
 		keys := []string{"pos/MaxValidators", "pos/SignedBlocksWindow", "pos/StakeMinimum", "pos/UnstakingTime", "auth/MaxMemoCharacters", "gov/daoOwner", "pos/Nope", "nosuch/Key", "pos/MinSignedPerWindow", "gov/acl", "gov/acl",
-			"pos/DowntimeJailDuration", "pos/MaxEvidenceAge", "pos/SlashFractionDoubleSign", "pos/SlashFractionDowntime", "gov/upgrade", "auth/TxSigLimit"}
+			"pos/DowntimeJailDuration", "pos/MaxEvidenceAge", "pos/SlashFractionDoubleSign", "pos/SlashFractionDowntime", "gov/upgrade", "auth/TxSigLimit", "auth/FeeMultipliers"}
 		key := keys[r.Intn(len(keys))]
 		// the sender is mostly the address the access-control list names for this key (ownership is handed over per key)
 		var curACL govTypes.ACL
@@ -478,6 +486,21 @@ func (f *Fam) genTx1(r *rand.Rand, s *Snapshot) string {
 			}
 			bz, _ := govTypes.ModuleCdc.MarshalJSON(na)
 			val = string(bz)
+		case "auth/FeeMultipliers": // a multiplier per message type (an unsorted list, a type named twice), and the default
+			names := []string{"send", "stake_validator", "unjail", "begin_unstaking_validator", "change_param", "dao_tranfer", "upgrade", "nosuchtype"}
+			r.Shuffle(len(names), func(i, j int) { names[i], names[j] = names[j], names[i] })
+			var ents []string
+			for _, n := range names[:r.Intn(5)] {
+				ents = append(ents, fmt.Sprintf(`{"key":"%s","multiplier":"%d"}`, n, pick(r, 0, 1, 2, 5, 1000000000000000)))
+			}
+			if len(ents) > 1 && r.Intn(4) == 0 {
+				ents = append(ents, ents[0][:strings.Index(ents[0], `"multiplier"`)]+`"multiplier":"3"}`) // the same type again: the first entry counts
+			}
+			list := "null"
+			if len(ents) > 0 {
+				list = "[" + strings.Join(ents, ",") + "]"
+			}
+			val = fmt.Sprintf(`{"fee_multiplier":%s,"default":"%d"}`, list, pick(r, 1, 1, 1, 2, 0))
 		case "auth/TxSigLimit": // the two multisignature keys count 3 and 5 keys
 			val = fmt.Sprintf(`"%d"`, pick(r, 0, 1, 2, 3, 4, 5, 6, 7))
 		case "pos/DowntimeJailDuration":
@@ -539,7 +562,7 @@ func (f *Fam) genTx1(r *rand.Rand, s *Snapshot) string {
 	if r.Intn(25) == 0 {
 		signer = r.Intn(NAll)
 	}
-	req := f.requiredFee(kind).Int64()
+	req := capInt64(f.requiredFee(s, kind))
 	fee := pick(r, req, req, req, req, req, req, req+1, req*2, 0, req-1)
 	if fee < 0 {
 		fee = 0
